@@ -625,6 +625,8 @@ func families(tier string) []fw.Family {
 		family("a contour covered several times: tri(L3)/rot and quad(L3)/rot twice, three times, with a reversed copy; three rectangles on a common left edge", Repeats(append(append([][]oracle.Pt{}, tri3r...), oracle.ContoursModRotation(L3, 4)...)), 1, 1e-8, 1e-6, false),
 		family("open quad(L3)/rot (open subpaths, implicitly closed)", single(oracle.ContoursModRotation(L3, 4)), 1, 1e-8, 1e-6, true),
 		family("three triangles (L5): a vertex in the middle of a vertical edge of another contour and an edge of the third through it; the first triangle to the right", VertexOnVerticalEdge(false), 1, 1e-8, 1e-6, false),
+		// the same lattice shapes a hundred thousand times smaller: features of 1e-5, a thousand snap-grid cells (absolute epsilons in the builders meet real corners there)
+		family("quad(L3)/rot and pent(L3)/rot scaled by 1e-5 (snap grid 1e-8)", single(append(oracle.ContoursModRotation(L3, 4), oracle.ContoursModRotation(L3, 5)...)), 1e-5, 1e-8, 2e-8, false),
 	}
 	if tier == "thorough" {
 		fs = append(fs,
